@@ -1,5 +1,3 @@
 import Hive.Base.Proto
-open Hive.Proto
-
-/-- Placeholder driver: answers `unimplemented` to every request. -/
-def main : IO Unit := run () (fun s _ => (s, "unimplemented"))
+import Hive.Model.BatchWriter
+def main : IO Unit := Hive.Proto.run ({} : Hive.Spec.BatchWriter.Mon) Hive.BatchWriter.stepLine
